@@ -509,7 +509,7 @@ func defaultRedirectTrailingSlashHandler(c Context) {
 
 	// Start from the path the request was routed with. EscapedPath would re-encode the decoded path whenever RawPath is
 	// not the encoding net/url prefers, turning an encoded slash (%2F) into a real one.
-	escaped := req.URL.RawPath
+	escaped := escapeIllegalPathBytes(req.URL.RawPath)
 	if escaped == "" {
 		escaped = req.URL.EscapedPath()
 	}
@@ -525,6 +525,37 @@ func defaultRedirectTrailingSlashHandler(c Context) {
 		return
 	}
 	localRedirect(c.Writer(), req, "../"+path.Base(url), code)
+}
+
+// escapeIllegalPathBytes percent-encodes the bytes of an already encoded path that may not appear as they are in a URL
+// path. [net/url.URL.RawPath] is whatever the client sent: it can hold a '#' (a request target has no fragment) or raw
+// non-ASCII bytes. Everything else, including the existing %XX sequences, is kept verbatim so that the path still
+// resolves to the same route with the same parameters.
+func escapeIllegalPathBytes(p string) string {
+	n := 0
+	for i := 0; i < len(p); i++ {
+		if illegalPathByte(p[i]) {
+			n++
+		}
+	}
+	if n == 0 {
+		return p
+	}
+	const upperhex = "0123456789ABCDEF"
+	buf := make([]byte, 0, len(p)+2*n)
+	for i := 0; i < len(p); i++ {
+		if c := p[i]; illegalPathByte(c) {
+			buf = append(buf, '%', upperhex[c>>4], upperhex[c&15])
+		} else {
+			buf = append(buf, c)
+		}
+	}
+	return string(buf)
+}
+
+// illegalPathByte reports whether c must be percent-encoded in a URL path (RFC 3986 section 3.3), '%' excepted.
+func illegalPathByte(c byte) bool {
+	return c <= ' ' || c >= 0x7f || c == '#' || c == '"' || c == '<' || c == '>' || c == '\\' || c == '^' || c == '`' || c == '{' || c == '|' || c == '}'
 }
 
 // ServeHTTP is the main entry point to serve a request. It handles all incoming HTTP requests and dispatches them
